@@ -152,9 +152,12 @@ def build_graph(run, path):
     init = sid([], True)
     n = 0
     for e in run.tagged("EDGE"):
-        edges.append({"f": sid(e["from"], e["fa"]), "t": sid(e["to"], e["ta"]), "op": e["op"]})
+        ed = {"f": sid(e["from"], e["fa"]), "t": sid(e["to"], e["ta"]), "op": e["op"]}
+        if "req" in e:
+            ed["req"], ed["http"] = e["req"], e["http"]
+        edges.append(ed)
         n += 1
-    callers = None
+    callers = {} if any("req" in e for e in edges[:1]) else None
     for c in run.tagged("CALLERS"):
         callers = c
     if callers is None or n == 0:
@@ -607,3 +610,42 @@ def c14(ctx):
                           "placement of the unlogged Apply steps that explains all replies, audit records and the final state"}
     return "model_checking", cov, ["begin is logged before the call starts and end after it returns, so the recorded real-time order is never "
                                    "stronger than the true one", "race reports are attributed to the code under test only when a setec frame is on the stack"]
+
+
+# ----------------------------------------------------------------------------- C08
+@check("C08")
+def c08(ctx):
+    th = ctx.thorough
+    cfg = open(os.path.join(VERIF, "spec", "cfg", "HttpMC.cfg")).read()
+    # T: the complete request-class product against every store state (no emission)
+    full = ctx.tlc("HttpMC", cfg, workers=NCPU, name="full", timeout=1800, heap="8g")
+    ctx.tlc_must_pass(full, "Http: GateNoEffect, StatusExact, PrincipalExact over the full request product")
+    q = lambda xs: "{" + ", ".join('"%s"' % x for x in xs) + "}"
+    if th:
+        consts = {"EmitEdges": "TRUE"}
+    else:
+        # quick: every class is still present, but the non-conforming representatives rotate with the seed
+        s = ctx.seed
+        om = ["GET", "PUT", "DELETE"]
+        oc = ["jsoncs", "text", "none"]
+        oh = ["other", "none"]
+        consts = {"EmitEdges": "TRUE", "Methods": q(["POST", om[s % 3]]), "CTypes": q(["json", oc[s % 3]]),
+                  "Hdrs": q(["setec", oh[s % 2]])}
+    run = ctx.tlc("HttpMC", cfg, workers=4, name="emit", timeout=3000, heap="8g", consts=consts)
+    ctx.tlc_must_pass(run, "Http (emitting configuration)")
+    wd = os.path.join(ctx.scratch, "graph-c08")
+    os.makedirs(wd)
+    ns, ne = build_graph(run, os.path.join(wd, "graph.json"))
+    log("graph c08: %d states, %d edges" % (ns, ne))
+    tot, samples = vault_walk(ctx, wd, "c08", shards=16 if th else 8, env={"VERIF_MODE": "http", "VERIF_PROBE_EVERY": 64})
+    cov = {"states": ns, "transitions": tot.get("targets_covered", 0), "traces_validated_against_impl": 0,
+           "samples": samples[:4], "model_transitions_full_product": full.generated, "model_transitions_replayed": ne,
+           "requests_sent_to_real_mux": tot.get("edges_executed", 0), "exhaustive": bool(th),
+           "explanation": "TLC checks GateNoEffect/StatusExact/PrincipalExact over the complete product method x content type x browser header x "
+                          "WhoIs answer (error, anonymous, tagged, user; each grant absent/empty/good/malformed under either capability name) x "
+                          "body class x endpoint (+ dashboard) in every store state; every emitted row is sent as a concrete request to the real "
+                          "mux (several representatives per class, chosen by seed) and status, body, audit sink, principal, rules applied and store "
+                          "state are compared with the row"}
+    return "model_checking", cov, ["WhoIs never returns a nil Node/UserProfile (tailscaled does not)",
+                                   "bodies with trailing garbage after a valid JSON value are outside the property's classes and are not sent",
+                                   "quick tier: POST + one other method, application/json + one other content type, 'setec' + one other header value, rotated by seed"]
